@@ -25,6 +25,7 @@ import (
 	"sync"
 	"sync/atomic"
 	"testing"
+	"time"
 
 	fileseq "github.com/justinfx/gofileseq/v2"
 )
@@ -387,6 +388,65 @@ func TestVerifStress(t *testing.T) {
 			if _, ok := sFileSeqs.Get(sqIds[h]); ok {
 				t.Fatalf("released sequence handle still resolves")
 			}
+		}
+	}
+	// owners of one handle keep taking and dropping references while other goroutines create and
+	// release handles of their own (writers on the same table): every operation must return
+	{
+		fsetW, _ := fileseq.NewFrameSet("1-10")
+		seqW, _ := fileseq.NewFileSequence("/a/foo.1-10#.exr")
+		len0s, len0q := sFrameSets.Len(), sFileSeqs.Len()
+		hS, hQ := sFrameSets.Add(*fsetW), sFileSeqs.Add(seqW)
+		const owners, creators, loops = 4, 4, 20000
+		for i := 1; i < owners; i++ {
+			sFrameSets.Incref(hS)
+			sFileSeqs.Incref(hQ)
+		}
+		done := make(chan struct{})
+		var wgW sync.WaitGroup
+		var lost int32
+		for i := 0; i < owners; i++ {
+			wgW.Add(1)
+			go func() {
+				defer wgW.Done()
+				for k := 0; k < loops; k++ {
+					sFrameSets.Incref(hS)
+					sFileSeqs.Incref(hQ)
+					if _, ok := sFrameSets.Get(hS); !ok {
+						atomic.AddInt32(&lost, 1)
+					}
+					if _, ok := sFileSeqs.Get(hQ); !ok {
+						atomic.AddInt32(&lost, 1)
+					}
+					sFrameSets.Decref(hS)
+					sFileSeqs.Decref(hQ)
+				}
+				sFrameSets.Decref(hS)
+				sFileSeqs.Decref(hQ)
+			}()
+		}
+		for i := 0; i < creators; i++ {
+			wgW.Add(1)
+			go func() {
+				defer wgW.Done()
+				for k := 0; k < loops; k++ {
+					a, b := sFrameSets.Add(*fsetW), sFileSeqs.Add(seqW)
+					sFrameSets.Decref(a)
+					sFileSeqs.Decref(b)
+				}
+			}()
+		}
+		go func() { wgW.Wait(); close(done) }()
+		select {
+		case <-done:
+		case <-time.After(60 * time.Second):
+			t.Fatalf("owners taking references while other goroutines create handles: the operations did not return within 60 s (deadlock on the table)")
+		}
+		if lost != 0 {
+			t.Fatalf("a handle with a positive reference count did not resolve while other handles were created (%d times)", lost)
+		}
+		if _, ok := sFrameSets.Get(hS); ok || sFrameSets.Len() != len0s || sFileSeqs.Len() != len0q {
+			t.Fatalf("after owners and creators finished: shared handle resolves=%v, live counts %d/%d instead of %d/%d", ok, sFrameSets.Len(), sFileSeqs.Len(), len0s, len0q)
 		}
 	}
 	// simultaneous release: k owners of one handle let go at the same moment
